@@ -22,6 +22,13 @@ Multi(l) == { G("MPT", l, <<>>), G("MPT", l, <<A(l), NILPT>>), G("MPT", l, <<NIL
               \* three and four non-empty polygons (offsets after the SECOND non-empty member), holes in a later member
               G("MPG", l, <<<<Ring(l)>>, <<Ring2(l)>>, <<Ring(l)>>>>), G("MPG", l, <<<<Ring(l)>>, <<>>, <<Ring2(l)>>, <<Ring(l), Ring2(l)>>, <<Ring2(l)>>>>),
               G("MLS", l, <<<<A(l), B(l)>>, <<C(l), D(l)>>, <<>>, <<B(l), C(l), A(l)>>, <<A(l), D(l)>>>>) }
+\* every sequence of up to 4 (Rich: 5) members over {EMPTY, a small member, a larger member}: EMPTY runs of every length at the
+\* front, in the middle and at the end (the offsets of a member are re-based across all the EMPTY members before it)
+SeqsOver(S, k) == UNION {[1..j -> S] : j \in 1..k}
+MaxMembers == IF Rich THEN 5 ELSE 4
+Runs(l) == { G("MPG", l, b) : b \in SeqsOver({<<>>, <<Ring(l)>>, <<Ring(l), Ring2(l)>>}, MaxMembers) }
+           \cup { G("MLS", l, b) : b \in SeqsOver({<<>>, <<A(l), B(l)>>, <<C(l), D(l), A(l)>>}, MaxMembers) }
+           \cup { G("MPT", l, b) : b \in SeqsOver({NILPT, A(l), C(l)}, MaxMembers) }
 Some(l) == { G("PT", l, B(l)), G("PT", l, <<>>), G("LS", l, <<A(l), B(l)>>), G("PG", l, <<Ring(l)>>),
              G("MPT", l, <<NILPT, B(l)>>), G("MPG", l, <<<<>>, <<Ring(l)>>>>), G("MLS", l, <<<<>>>>) }
 Coll(l) == { G("GC", l, <<>>) }
@@ -29,7 +36,7 @@ Coll(l) == { G("GC", l, <<>>) }
            \cup { G("GC", l, <<x, G("GC", l, <<y>>)>>) : x \in Some(l), y \in Some(l) }
            \cup { G("GC", l, <<G("GC", l, <<>>), x>>) : x \in Some(l) }
            \cup (IF Rich THEN { G("GC", l, <<G("GC", l, <<G("GC", l, <<x>>), y>>), G("GC", l, <<>>)>>) : x \in Some(l), y \in Some(l) } ELSE {})
-Geoms == UNION {Leaf(l) \cup Multi(l) \cup Coll(l) : l \in Layouts}
+Geoms == UNION {Leaf(l) \cup Multi(l) \cup Runs(l) \cup Coll(l) : l \in Layouts}
 VARIABLE g
 Init == g \in Geoms
 Next == FALSE /\ UNCHANGED g
